@@ -14,6 +14,10 @@ import time
 import z3
 
 
+#: search-order hint for the next decisions (None | True | False); never changes what is explored, only when
+PREFER = [None]
+
+
 class EngineLimit(BaseException):
     """The real code did something this engine cannot model. The path is
     inconclusive (never 'passed')."""
@@ -148,7 +152,13 @@ class Path:
         self.solver.add(other)
         r = self._check()
         if r == z3.sat:
-            self.new_pending.append((self.trace + [not d], self.solver.model()))
+            if PREFER[0] is not None and d != PREFER[0]:
+                # search-order hint: go down the preferred branch now, keep the model's branch for later
+                self.new_pending.append((self.trace + [d], self.model))
+                self.model = self.solver.model()
+                d = not d
+            else:
+                self.new_pending.append((self.trace + [not d], self.solver.model()))
         elif r == z3.unknown:
             self.unknown += 1
             self.x.stats.unknown += 1
